@@ -466,13 +466,24 @@ def run_procpool_full(spec):
         mode = spec.get('exit', 'shutdown')
 
         def session():
+            def submit_one(x):
+                t = x.spec
+                w.log.add('submit.begin', label=x.label)
+                x.future = dl.download_file(BUCKET, x.key, x.dest, extra_args=dict(t.get('extra_args') or {}) or None,
+                                            expected_size=t.get('expected_size'))
+                w.log.add('submit.end', label=x.label)
+
             def submit_all():
-                for x in xfers:
-                    t = x.spec
-                    w.log.add('submit.begin', label=x.label)
-                    x.future = dl.download_file(BUCKET, x.key, x.dest, extra_args=dict(t.get('extra_args') or {}) or None,
-                                                expected_size=t.get('expected_size'))
-                    w.log.add('submit.end', label=x.label)
+                if spec.get('concurrent_submit'):
+                    # one downloader used from several threads: every download_file call on its own thread
+                    ths = [threading.Thread(target=submit_one, args=(x,), name=f'vf-pp-submit-{x.label}', daemon=True) for x in xfers]
+                    for th in ths:
+                        th.start()
+                    for th in ths:
+                        th.join(20)
+                else:
+                    for x in xfers:
+                        submit_one(x)
                 if cp and cp.get('at') == '@after_submit':
                     do_cancel(cp)
             if mode == 'shutdown':
